@@ -361,6 +361,8 @@ func c12Run(c *Ctx) {
 		for _, v := range variants(id) {
 			acc("MIT WITH %s", v, true, true)
 			acc("GPL-2.0+ WITH %s", v, true, true)
+			acc("Apache-2.0+ WITH %s", v, true, true)
+			acc("(MIT+ WITH %s)", v, true, true)
 			for _, f := range c12BadForms {
 				acc(f, v, false, true)
 			}
